@@ -379,6 +379,13 @@ class Gen:
         if f == 'interpose':
             return (f, [self.scalar(), self.seqv()])
         if f == 'range' and r.chance(1, 3):
+            # dyadic fractions: exact in double arithmetic, compared value-for-value with the model and python
+            q = lambda lo, hi: (lambda v: I(v // 8) if v % 8 == 0 else ('d', v / 8.0))(r.range(lo * 8, hi * 8))
+            k = r.below(3)
+            if k == 0: return (f, [q(-2, 6)])
+            if k == 1: return (f, [q(-4, 4), q(-4, 8)])
+            return (f, [q(-4, 4), q(-4, 6), r.choice([q(-2, 2), ('d', 0.125), ('d', -0.125), ('d', 0.5), ('d', -0.75), I(0), ('d', 2.5)])])
+        if f == 'range' and r.chance(1, 2):
             fl = lambda: r.choice([I(r.range(-5, 9)), ('d', r.choice([0.1, 0.01, 0.3, 0.7, 1.5, -0.1, -1.5, 0.12000000000000001, 0.36000000000000004,
                                                                      2.5, 1e-3, float('inf'), float('-inf'), float('nan')])),
                                    ('d', r.range(1, 60) * r.choice([0.1, 0.01, 0.3, 0.7]))])
